@@ -19,16 +19,6 @@ def CanonOp : Op → Prop
   | .create r => ∀ d ∈ r.files, d.form = .colon
   | _ => True
 
-/-- the manifest names an operation may write, after `getExistingName` -/
-def targets (op : Op) (ch : Choice) : List Name :=
-  match op with
-  | .create r => [getExistingName ch.ord1 r.name]
-  | .copy _ d => [getExistingName ch.ord2 d]
-  | .delete n => [getExistingName ch.ord1 n]
-  | .plant _ d => [d]
-  | .corrupt n => [n]
-  | _ => []
-
 theorem step_good {env : Env} (hinj : HashInj env) {st : Store} (hc : Canonical st) (hi : Inv env st)
     (op : Op) (ho : CanonOp op) (ch : Choice) : Good env st (step env st op ch).1 (targets op ch) := by
   obtain ⟨hb, hn⟩ := hi
@@ -107,5 +97,230 @@ theorem prune_exact (st : Store) (hc : Canonical st) (hnc : st.hasCorrupt = fals
       have := keyReferenced_of_referenced hr
       simp only [Digest.key] at this
       rw [hk] at this; cases this
+
+/-! ## letter case -/
+
+theorem readable_frame (env : Env) (st : Store) (op : Op) (ch : Choice) (a : Name)
+    (h : Readable (step env st op ch).1 a) : Readable st a ∨ a ∈ targets op ch := by
+  by_cases ha : a ∈ targets op ch
+  · exact Or.inr ha
+  · obtain ⟨m, hm⟩ := h
+    rw [step_man_frame env st op ch a ha] at hm
+    exact Or.inl ⟨m, hm⟩
+
+/-- **No case twins, partial.**  `no_case_twins` for arbitrary stores is FALSE (witness below).  It holds
+    under the guard `NoMixed st` — no two readable manifests spell a fold-equal host, namespace, model or tag
+    differently — and that guard is itself preserved by every API operation for every iteration order of
+    the map that `getExistingName` ranges over. -/
+theorem no_case_twins_partial (env : Env) (st : Store) (op : Op) (ch : Choice) (hapi : ApiOp op)
+    (hcov : Covers st ch) (h : NoMixed st) :
+    NoMixed (step env st op ch).1 ∧ NoTwins (step env st op ch).1 := by
+  have key : NoMixed (step env st op ch).1 := by
+    have sub : ∀ n ord, (∀ e, e ∈ ord ↔ Readable st e) → targets op ch = [getExistingName ord n] →
+        NoMixed (step env st op ch).1 := by
+      intro n ord hord ht
+      refine (h.insert_resolved ord hord n).mono (fun a ha => ?_)
+      rcases readable_frame env st op ch a ha with h' | h'
+      · exact Or.inl h'
+      · rw [ht] at h'; exact Or.inr (by simpa using h')
+    have sub0 : targets op ch = [] → NoMixed (step env st op ch).1 := by
+      intro ht
+      refine h.mono (fun a ha => ?_)
+      rcases readable_frame env st op ch a ha with h' | h'
+      · exact h'
+      · rw [ht] at h'; cases h'
+    cases op with
+    | upload d c => exact sub0 rfl
+    | prune => exact sub0 rfl
+    | create r => exact sub r.name ch.ord1 hcov.1 rfl
+    | copy s d => exact sub d ch.ord2 hcov.2 rfl
+    | delete n => exact sub n ch.ord1 hcov.1 rfl
+    | plant s d => exact absurd hapi (by simp [ApiOp])
+    | corrupt n =>
+      refine h.mono (fun a ha => ?_)
+      rcases readable_frame env st (.corrupt n) ch a ha with h' | h'
+      · exact h'
+      · simp only [targets, List.mem_singleton] at h'
+        subst h'
+        obtain ⟨m, hm⟩ := ha
+        simp only [step] at hm
+        cases hs : st.man a with
+        | none => rw [hs] at hm; simp only at hm; rw [hs] at hm; cases hm
+        | some f =>
+          rw [hs] at hm; simp only at hm
+          rw [setManifest_man] at hm
+          simp at hm
+  exact ⟨key, key.noTwins⟩
+
+/-- histories of API operations whose iteration orders are orders of the actual manifest map -/
+def RunOk (env : Env) : Store → List (Op × Choice) → Prop
+  | _, [] => True
+  | st, (op, ch) :: rest => ApiOp op ∧ Covers st ch ∧ RunOk env (step env st op ch).1 rest
+
+/-- from the empty store, API operations alone never produce two models that differ only by case -/
+theorem reachable_no_twins (env : Env) (ops : List (Op × Choice)) (st : Store) (h : NoMixed st)
+    (hr : RunOk env st ops) : NoTwins (run env st ops) := by
+  induction ops generalizing st with
+  | nil => exact h.noTwins
+  | cons p rest ih =>
+    obtain ⟨op, ch⟩ := p
+    obtain ⟨h1, h2, h3⟩ := hr
+    exact ih _ (no_case_twins_partial env st op ch h1 h2 h).1 h3
+
+theorem empty_NoMixed : NoMixed Store.empty := by
+  have : ∀ a, ¬ Readable Store.empty a := by
+    intro a ⟨m, hm⟩; simp [Store.empty, Store.man, aget] at hm
+  exact ⟨fun a _ ha => absurd ha (this a), fun a _ ha => absurd ha (this a),
+         fun a _ ha => absurd ha (this a), fun a _ ha => absurd ha (this a)⟩
+
+/-! ## witnesses of the defects the model shares with the code (Lean-checked) -/
+
+/-- a toy world: the "hash" of a content is its text; anything that starts with 'G' is a GGUF file -/
+def wEnv : Env :=
+  { hash := fun c => String.ofList (c.map (fun b => Char.ofNat b.toNat))
+    gguf := fun c => if c.head? = some 71 then some ⟨"llama", "0", "unknown"⟩ else none }
+
+def nm (ns m : String) : Name := ⟨"registry.ollama.ai", ns, m, "latest"⟩
+def gG : Bytes := [71]
+def ch0 : Choice := ⟨[], [], false⟩
+def mk (n : Name) (f : Form) : Op := .create ⟨n, none, [⟨f, "G"⟩], none, none, []⟩
+
+/-- does some readable manifest point to a blob that is not there? -/
+def incompleteB (st : Store) : Bool :=
+  st.names.any (fun n => match st.readableAt n with
+    | some m => m.all.any (fun l => (st.blob l.digest.key).isNone)
+    | none => false)
+
+theorem not_NameInv_of_incompleteB (env : Env) (st : Store) (h : incompleteB st = true) : ¬ NameInv env st := by
+  intro hi
+  unfold incompleteB at h
+  rw [List.any_eq_true] at h
+  obtain ⟨n, _, h⟩ := h
+  split at h
+  · rename_i m hm
+    rw [List.any_eq_true] at h
+    obtain ⟨l, hl, hn⟩ := h
+    obtain ⟨c, hc, _⟩ := hi n m (readableAt_eq_some.mp hm) l hl
+    rw [hc] at hn; cases hn
+  · cases h
+
+/-- upload G; create a {f: "sha256:G"}; create b {f: "sha256-G"} -/
+def stA : Store := run wEnv Store.empty
+  [(.upload ⟨.colon, "G"⟩ gG, ch0), (mk (nm "library" "a") .colon, ch0), (mk (nm "library" "b") .dash, ch0)]
+
+/-- **F16a, delete.**  After `delete b` the blob `a` still points to is gone and `show a` answers 404:
+    `op_preserves_NameInv` and `op_frame` are false without the `Canonical` guard. -/
+theorem F16a_delete_witness :
+    incompleteB stA = false ∧
+    let st' := (step wEnv stA (.delete (nm "library" "b")) ch0).1
+    (st'.readableAt (nm "library" "a")).isSome = true ∧ st'.blob "G" = none ∧ incompleteB st' = true ∧
+    showAt wEnv st' (nm "library" "a") = "h404" := by decide +kernel
+
+theorem F16a_breaks_NameInv : ¬ NameInv wEnv (step wEnv stA (.delete (nm "library" "b")) ch0).1 :=
+  not_NameInv_of_incompleteB _ _ F16a_delete_witness.2.2.2.1
+
+/-- **F16a, startup prune.**  upload G; create b {f: "sha256-G"}; restart: the only model loses its blob
+    (`prune_exact` is false without the guard). -/
+theorem F16a_prune_witness :
+    let st := run wEnv Store.empty [(.upload ⟨.colon, "G"⟩ gG, ch0), (mk (nm "library" "b") .dash, ch0)]
+    incompleteB st = false ∧ st.keyReferenced "G" = true ∧ (pruneStartup st).1.blob "G" = none ∧
+    incompleteB (pruneStartup st).1 = true := by decide +kernel
+
+/-- a store in which two manifests spell the model part differently: library/Foo and other/foo -/
+def stB : Store := run wEnv Store.empty
+  [(.upload ⟨.colon, "G"⟩ gG, ch0), (mk (nm "library" "Foo") .colon, ch0),
+   (.plant (nm "library" "Foo") (nm "other" "foo"), ch0)]
+
+/-- **F16b, case twins.**  `create library/foo` with the map iterated as [library/Foo, other/foo] writes
+    library/foo next to library/Foo; iterated the other way round it overwrites library/Foo.
+    (`no_case_twins` is false without the `NoMixed` guard.) -/
+theorem F16b_twin_witness :
+    stB.readableNames = [nm "other" "foo", nm "library" "Foo"] ∧
+    let o1 : Choice := ⟨[nm "library" "Foo", nm "other" "foo"], [], false⟩
+    let o2 : Choice := ⟨[nm "other" "foo", nm "library" "Foo"], [], false⟩
+    let s1 := (step wEnv stB (mk (nm "library" "foo") .colon) o1).1
+    let s2 := (step wEnv stB (mk (nm "library" "foo") .colon) o2).1
+    ((s1.readableAt (nm "library" "Foo")).isSome && (s1.readableAt (nm "library" "foo")).isSome
+      && (nm "library" "Foo").equalFold (nm "library" "foo")) = true ∧
+    (s2.readableAt (nm "library" "foo")).isSome = false ∧
+    -- and `show library/Foo` can answer 404 for a listed model in the mixed store
+    showAt wEnv stB (getExistingName o1.ord1 (nm "library" "Foo")) = "h404" := by decide +kernel
+
+theorem F16b_breaks_NoTwins :
+    ¬ NoTwins (step wEnv stB (mk (nm "library" "foo") .colon) ⟨[nm "library" "Foo", nm "other" "foo"], [], false⟩).1 := by
+  intro h
+  have w := F16b_twin_witness.2.1
+  simp only [Bool.and_eq_true, Option.isSome_iff_exists] at w
+  obtain ⟨⟨⟨m1, h1⟩, ⟨m2, h2⟩⟩, h3⟩ := w
+  have := h _ _ ⟨m1, readableAt_eq_some.mp h1⟩ ⟨m2, readableAt_eq_some.mp h2⟩ h3
+  exact absurd this (by decide)
+
+/-- **N1, create goes on after the FROM error.**  create a {files}; create a from <missing>: the events are
+    error then success, `a` is now a manifest without layers (listed; `show` answers 404) and its blob is gone. -/
+theorem N1_create_continues_witness :
+    let st := run wEnv Store.empty [(.upload ⟨.colon, "G"⟩ gG, ch0), (mk (nm "library" "a") .colon, ch0)]
+    let r := step wEnv st (.create ⟨nm "library" "a", some (nm "nobody" "missing"), [], none, none, []⟩) ch0
+    showAt wEnv st (nm "library" "a") = "h200" ∧ r.2 = ["e500", "s"] ∧
+    ((r.1.readableAt (nm "library" "a")).map (·.layers)) = some [] ∧ r.1.blob "G" = none ∧
+    (listed r.1).contains (nm "library" "a") = true ∧ showAt wEnv r.1 (nm "library" "a") = "h404" := by
+  decide +kernel
+
+/-! ## non-vacuity -/
+
+/-- the hypotheses of the guarded theorems are met by a non-trivial reachable store (two models sharing a
+    blob, one made from the other with an overridden system prompt), and the toy hash is injective on it -/
+example :
+    let st := run wEnv Store.empty
+      [(.upload ⟨.colon, "G"⟩ gG, ch0), (mk (nm "library" "a") .colon, ch0),
+       (.copy (nm "library" "a") (nm "library" "c"), ch0),
+       (.create ⟨nm "library" "a", some (nm "library" "a"), [], none, some [83], []⟩, ch0)]
+    incompleteB st = false ∧ st.readableNames.length = 2 ∧ st.keyReferenced "G" = true ∧
+    (st.blob "S").isSome = true := by decide +kernel
+
+
+theorem charOfU8_inj (x y : UInt8) (h : Char.ofNat x.toNat = Char.ofNat y.toNat) : x = y := by
+  have hx : x.toNat < 256 := x.toNat_lt
+  have hy : y.toNat < 256 := y.toNat_lt
+  have h2 := congrArg Char.toNat h
+  have vx : x.toNat.isValidChar := Or.inl (by omega)
+  have vy : y.toNat.isValidChar := Or.inl (by omega)
+  simp only [Char.ofNat, vx, vy, dif_pos, Char.toNat, Char.ofNatAux] at h2
+  apply UInt8.toNat_inj.mp
+  simpa [UInt32.toNat_ofNatLT] using h2
+
+theorem map_inj {α β} (f : α → β) (hf : ∀ x y, f x = f y → x = y) : ∀ (a b : List α), a.map f = b.map f → a = b
+  | [], [], _ => rfl
+  | [], _ :: _, h => by simp at h
+  | _ :: _, [], h => by simp at h
+  | x :: a, y :: b, h => by
+    simp only [List.map_cons, List.cons.injEq] at h
+    rw [hf x y h.1, map_inj f hf a b h.2]
+
+theorem textHash_inj (a b : Bytes)
+    (h : String.ofList (a.map (fun x => Char.ofNat x.toNat)) = String.ofList (b.map (fun x => Char.ofNat x.toNat))) :
+    a = b := by
+  have h' := congrArg String.toList h
+  simp only [String.toList_ofList] at h'
+  exact map_inj _ (fun x y hxy => charOfU8_inj x y hxy) a b h'
+
+theorem wEnv_inj : HashInj wEnv := fun a b h => textHash_inj a b h
+
+/-- …and the propositional hypotheses themselves (`HashInj`, `Canonical`, `Inv`) hold for that store -/
+example :
+    let st := run wEnv Store.empty
+      [(.upload ⟨.colon, "G"⟩ gG, ch0), (mk (nm "library" "a") .colon, ch0),
+       (.copy (nm "library" "a") (nm "library" "c"), ch0),
+       (.create ⟨nm "library" "a", some (nm "library" "a"), [], none, some [83], []⟩, ch0)]
+    HashInj wEnv ∧ Inv wEnv st ∧ Canonical st := by
+  refine ⟨wEnv_inj, history_preserves_Inv wEnv_inj _ ?_ _ (empty_Inv wEnv).2 (empty_Inv wEnv).1⟩
+  intro p hp
+  simp only [List.mem_cons, List.not_mem_nil, or_false] at hp
+  rcases hp with rfl | rfl | rfl | rfl
+  · trivial
+  · intro d hd
+    simp only [List.mem_singleton] at hd
+    subst hd; rfl
+  · trivial
+  · intro d hd; cases hd
 
 end OllamaVerif.C04
